@@ -85,7 +85,40 @@ func c08R1(c *Ctx, lx *lexerModel) {
 		}
 		return true
 	})
-	if lengthObj == nil {
+	// the counting form: the width is returned as a sum of per-character counts with positive constant weights
+	countForm, countWhy := false, ""
+	if lengthObj == nil || len(w.ent(lx.measure).assigns[lengthObj]) == 1 {
+		mx := w.expander(lx.measure)
+		nRet, okAll := 0, true
+		walkNoLit(lx.measure.Body, func(n ast.Node) bool {
+			if r, ok := n.(*ast.ReturnStmt); ok && len(r.Results) == 1 {
+				nRet++
+				fm := affineOf(info, mx, r.Results[0], func(s string) string { return s })
+				kinds := 0
+				if !fm.ok || fm.c != 0 {
+					okAll = false
+				}
+				for k, v := range fm.coef {
+					if v == 0 {
+						continue
+					}
+					if v < 0 || !strings.HasPrefix(k, "strings.Count(") {
+						okAll = false
+					}
+					kinds++
+				}
+				if kinds < 2 {
+					okAll = false
+				}
+				countWhy = fm.String()
+			}
+			return true
+		})
+		countForm = nRet > 0 && okAll
+	}
+	if countForm {
+		c.ob("C08.R1", lx.measure.Name+"/accumulation", w.Pos(lx.measure.Decl.Pos()), true, "the width is a sum of character counts with positive constant weights ("+countWhy+"): strictly monotone in the number of characters of one kind")
+	} else if lengthObj == nil {
 		c.ob("C08.R1", lx.measure.Name+"/accumulation", w.Pos(lx.measure.Decl.Pos()), false, "the measuring function does not return a local accumulator")
 	} else {
 		e := w.ent(lx.measure)
@@ -517,6 +550,88 @@ func c08R2(c *Ctx, lx *lexerModel) {
 		return dep
 	}
 	for _, st := range f.Body.List {
+		// the switch form of the look-ahead: switch input.LA(k) { case c1, c2: return; case c3: if <cond> { return } } is read as the
+		// guard if LA(k)==c1 || LA(k)==c2 || (LA(k)==c3 && <cond>) { return }
+		if sw, ok := st.(*ast.SwitchStmt); ok && sw.Tag != nil && sw.Init == nil {
+			if k, isLA := laCall(info, sw.Tag); isLA {
+				var cond ast.Expr
+				or := func(a, b ast.Expr) ast.Expr {
+					if a == nil {
+						return b
+					}
+					return &ast.BinaryExpr{X: a, Op: token.LOR, Y: b}
+				}
+				okForm := true
+				for _, cs := range sw.Body.List {
+					cc := cs.(*ast.CaseClause)
+					if cc.List == nil {
+						if len(cc.Body) != 0 {
+							okForm = false
+						}
+						continue
+					}
+					var eq ast.Expr
+					for _, xv := range cc.List {
+						eq = or(eq, &ast.BinaryExpr{X: sw.Tag, Op: token.EQL, Y: xv})
+						if tv, ok := info.Types[xv]; ok && tv.Value != nil {
+							if v, ok := constant.Int64Val(constant.ToInt(tv.Value)); ok {
+								if tests[k] == nil {
+									tests[k] = map[int64]bool{}
+								}
+								tests[k][v] = true
+							}
+						}
+					}
+					// body: nothing | return | [v = <cond>;] if <cond or v> { return }
+					defs := map[types.Object]ast.Expr{}
+					var term ast.Expr
+					done := false
+					for _, bs := range cc.Body {
+						if done {
+							okForm = false
+							break
+						}
+						switch b := bs.(type) {
+						case *ast.ReturnStmt:
+							term, done = eq, true
+						case *ast.AssignStmt:
+							if len(b.Lhs) == 1 && len(b.Rhs) == 1 {
+								if id := identOf(b.Lhs[0]); id != nil {
+									obj := info.Defs[id]
+									if obj == nil {
+										obj = info.Uses[id]
+									}
+									defs[obj] = b.Rhs[0]
+									continue
+								}
+							}
+							okForm = false
+						case *ast.IfStmt:
+							if b.Init != nil || b.Else != nil || !isTerminating(info, b.Body) {
+								okForm = false
+								break
+							}
+							var inner ast.Expr = b.Cond
+							if id, ok := unparen(b.Cond).(*ast.Ident); ok {
+								if d, ok := defs[info.Uses[id]]; ok {
+									inner = d
+								}
+							}
+							term, done = &ast.BinaryExpr{X: eq, Op: token.LAND, Y: &ast.ParenExpr{X: inner}}, true
+						default:
+							okForm = false
+						}
+					}
+					if term != nil {
+						cond = or(cond, term)
+					}
+				}
+				if okForm && cond != nil {
+					guards = append(guards, &ast.IfStmt{If: sw.Pos(), Cond: cond, Body: &ast.BlockStmt{Lbrace: sw.Pos(), List: []ast.Stmt{&ast.ReturnStmt{Return: sw.Pos()}}, Rbrace: sw.End()}})
+				}
+			}
+			continue
+		}
 		is, ok := st.(*ast.IfStmt)
 		if !ok {
 			continue
